@@ -20,16 +20,16 @@ abbrev Signed (T : Truth) (s : Sig) (i : Nat) (m : Msg) : Prop := SigHas T s ⟨
 def QuorumSigned (E : CertEnv) (s : Sig) (m : Msg) : Prop :=
   ∃ S : List Nat, S.Nodup ∧ E.cfg.quorum ≤ S.length ∧ ∀ i ∈ S, E.cfg.has i = true ∧ Signed E.T s i m
 
-/-- QC soundness: an accepted QC is the genesis QC, or names a stored block *of the claimed view*
+/-- QC soundness: an accepted QC is the genesis QC (genesis block, view 0), or names a stored block *of the claimed view*
 whose bytes a quorum of distinct configured replicas signed. -/
 theorem verifyQC_sound (E : CertEnv) (qc : QC) (hs : StoreOK E) (hw : QC.WF qc)
     (h : verifyQC E qc = true) :
-    qc.hash = genesisHash ∨
+    (qc.hash = genesisHash ∧ qc.view = 0) ∨
     ∃ b s, E.get qc.hash = some b ∧ b.hash = qc.hash ∧ b.view = qc.view ∧ qc.sig = some s ∧
       QuorumSigned E s (blkMsg qc.hash) := by
   unfold verifyQC at h
   split at h
-  · rename_i hg; left; simpa using hg
+  · rename_i hg; left; exact ⟨by simpa using hg, by simpa using h⟩
   · right
     split at h
     · simp at h
